@@ -6,9 +6,11 @@
 
 mod c15;
 mod c17;
+mod c18;
 mod driver;
 mod gen;
 mod io_fault;
+mod net;
 mod objs;
 mod prng;
 mod sched;
@@ -98,6 +100,7 @@ fn main() {
         let code = match cmd {
             "C15" => c15::replay(&doc),
             "C17" => c17::replay(&doc),
+            "C18" => c18::replay(&doc),
             _ => {
                 eprintln!("unknown property {}", cmd);
                 2
@@ -109,6 +112,7 @@ fn main() {
     let code = match cmd {
         "C15" => c15::run(tier, seed),
         "C17" => c17::run(tier, seed),
+        "C18" => c18::run(tier, seed),
         _ => {
             eprintln!("unknown command {}", cmd);
             2
